@@ -210,7 +210,11 @@ fn dc_cfg() -> DataChannelConfig {
 #[derive(Clone, Copy, Debug, PartialEq, Eq, Hash)]
 enum Phase { Created, Gathering, OfferSet, Checking, DtlsHandshaking, DtlsConnected, ChannelsOpen, MediaFlowing, RtpCreated, RtpFlowing,
     /// the instant A reports Connected (SCTP still connecting or just up, transport loops just spawned): oracle only
-    JustConnected, JustConnectedMedia }
+    JustConnected, JustConnectedMedia,
+    /// channels open and the PEER has opened one more channel in-band (DCEP): A learned of it through pc.recv()
+    PeerChannelOpen,
+    /// three negotiated channels open (several senders can park at once: a channel's send lock serialises its own)
+    ThreeChannelsOpen }
 impl Phase {
     fn model(self) -> &'static str {
         match self {
@@ -220,7 +224,8 @@ impl Phase {
             Phase::DtlsHandshaking => "PhDtlsHandshaking",
             Phase::DtlsConnected => "PhDtlsConnected",
             Phase::ChannelsOpen | Phase::MediaFlowing => "PhChannelsOpen",
-            Phase::JustConnected | Phase::JustConnectedMedia => "-",
+            Phase::JustConnected | Phase::JustConnectedMedia | Phase::ThreeChannelsOpen => "-",
+            Phase::PeerChannelOpen => "PhTwoChannelsOpen",
             Phase::RtpFlowing => "PhDirectConnected",
         }
     }
@@ -235,6 +240,11 @@ enum Ev {
     /// thorough only: drop in mid-handshake while the relay keeps starving DTLS: the teardown waits for the
     /// DTLS handshake timeout (30 s)
     DropStarved,
+    /// the association ends on its own (ICE stop / remote ABORT), the application then creates ANOTHER channel on
+    /// the still-open connection, then closes / drops it: the late channel must see its one Close too
+    LateChanIceStopClose, LateChanIceStopDrop, LateChanAbortClose, LateChanAbortDrop,
+    /// three senders parked on three channels (nothing is acknowledged), then the association is ended from below
+    Blocked3ThenIceStop, Blocked3ThenCloseNotify, Blocked3ThenAbort,
 }
 impl Ev {
     /// the stimuli as the model sees them (threads of `option event`; None = the harness waited)
@@ -265,20 +275,27 @@ impl Ev {
             Ev::BlockedThenClose => format!("[{}]", t(&["Some WindowFull", "Some SenderEnter", "None", "Some Close"])),
             Ev::BlockedThenAbort => format!("[{}]", t(&["Some WindowFull", "Some SenderEnter", "None", "Some SctpAbort"])),
             Ev::BlockedThenCloseNotify => format!("[{}]", t(&["Some WindowFull", "Some SenderEnter", "None", "Some PeerCloseNotify"])),
+            Ev::LateChanIceStopClose => format!("[{}]", t(&["Some IceStop", "None", "Some CreateChannel", "Some Close"])),
+            Ev::LateChanIceStopDrop => format!("[{}]", t(&["Some IceStop", "None", "Some CreateChannel", "Some Drop"])),
+            Ev::LateChanAbortClose => format!("[{}]", t(&["Some SctpAbort", "None", "Some CreateChannel", "Some Close"])),
+            Ev::LateChanAbortDrop => format!("[{}]", t(&["Some SctpAbort", "None", "Some CreateChannel", "Some Drop"])),
+            Ev::Blocked3ThenIceStop | Ev::Blocked3ThenCloseNotify | Ev::Blocked3ThenAbort => "[]".into(),
         }
     }
-    fn blocked(self) -> bool { matches!(self, Ev::BlockedThenClose | Ev::BlockedThenAbort | Ev::BlockedThenCloseNotify) }
+    fn blocked(self) -> bool { matches!(self, Ev::BlockedThenClose | Ev::BlockedThenAbort | Ev::BlockedThenCloseNotify) || self.blocked3() }
+    fn blocked3(self) -> bool { matches!(self, Ev::Blocked3ThenIceStop | Ev::Blocked3ThenCloseNotify | Ev::Blocked3ThenAbort) }
+    fn late_chan(self) -> bool { matches!(self, Ev::LateChanIceStopClose | Ev::LateChanIceStopDrop | Ev::LateChanAbortClose | Ev::LateChanAbortDrop) }
     /// the application itself closed or dropped A as part of the event
     fn app_closed(self) -> bool {
-        matches!(self, Ev::Close | Ev::Drop | Ev::DropStarved | Ev::CloseTwice | Ev::CloseThenDrop | Ev::IceStopThenClose | Ev::RaceCloseNotify | Ev::RaceCloseAbort | Ev::RaceCloseClose | Ev::BlockedThenClose)
+        matches!(self, Ev::Close | Ev::Drop | Ev::DropStarved | Ev::CloseTwice | Ev::CloseThenDrop | Ev::IceStopThenClose | Ev::RaceCloseNotify | Ev::RaceCloseAbort | Ev::RaceCloseClose | Ev::BlockedThenClose) || self.late_chan()
     }
     /// a lower layer ended the connection: a visible end is demanded without any application call
     fn lower_end(self) -> bool {
-        matches!(self, Ev::CloseNotify | Ev::Abort | Ev::ShutdownAck | Ev::ShutdownThenComplete | Ev::IceStop | Ev::BlockedThenAbort | Ev::BlockedThenCloseNotify)
+        matches!(self, Ev::CloseNotify | Ev::Abort | Ev::ShutdownAck | Ev::ShutdownThenComplete | Ev::IceStop | Ev::BlockedThenAbort | Ev::BlockedThenCloseNotify) || self.blocked3()
     }
     /// the connection's channels are ended by the event (each must have seen its one Close)
     fn ends_assoc(self) -> bool { self.app_closed() || self.lower_end() }
-    fn drops_a(self) -> bool { matches!(self, Ev::Drop | Ev::CloseThenDrop | Ev::DropStarved) }
+    fn drops_a(self) -> bool { matches!(self, Ev::Drop | Ev::CloseThenDrop | Ev::DropStarved | Ev::LateChanIceStopDrop | Ev::LateChanAbortDrop) }
 }
 
 #[derive(Clone, Debug)]
@@ -296,6 +313,11 @@ struct Outcome {
     final_obs: Option<Obs>,
     chan: Option<(usize, usize, usize)>, // opens, closes, ended (after the event)
     chan_final: Option<(usize, usize, usize)>,
+    /// further channels of A in model order (peer-announced / second and third negotiated / created late)
+    extra: Vec<(usize, usize, usize)>,
+    extra_final: Vec<(usize, usize, usize)>,
+    /// fates of the additional parked senders (channels 1, 2): 1 err 2 ok 3 parked
+    senders_extra: Vec<u8>,
     sender: u8, // 0 none 1 err 2 ok 3 parked
     sender_latency_ms: Option<f64>,
     calls: Vec<(String, Option<String>, f64)>, // name, result (None = did not return within the bound), ms
@@ -311,6 +333,8 @@ struct Outcome {
     setup_attempts: usize,
     /// a timing / release observation failed its first bound and was observed again with a longer wait
     reobserved: bool,
+    /// failed in the parallel pass and was not re-run in isolation (re-run budget used up): reported, not an oracle_fail
+    unconfirmed: bool,
 }
 
 struct Setup {
@@ -326,6 +350,8 @@ struct Setup {
     hole: Option<UdpSocket>,
     ports: Vec<u16>,
     media: Option<tokio::task::JoinHandle<()>>,
+    extra: Vec<(Arc<DataChannel>, Arc<ChanCount>)>,
+    extra_b: Vec<Arc<DataChannel>>,
 }
 
 async fn negotiate(a: &PeerConnection, b: &PeerConnection, relay_mode: Option<u8>) -> Result<Option<Relay>, String> {
@@ -374,7 +400,7 @@ async fn setup(phase: Phase, ev: Ev) -> Result<Setup, String> {
     if ev.blocked() { ca_cfg.sctp_max_buffered_amount = 4096; }
     let a = PeerConnection::new(ca_cfg);
     let wa = Watch::new(&a);
-    let mut s = Setup { a: None, b: None, wa, dca: None, dcb: None, ca: None, cb: None, hs: vec![], relay: None, hole: None, ports: vec![], media: None };
+    let mut s = Setup { a: None, b: None, wa, dca: None, dcb: None, ca: None, cb: None, hs: vec![], relay: None, hole: None, ports: vec![], media: None, extra: vec![], extra_b: vec![] };
     let with_dc = phase.has_channel();
     if with_dc {
         let dca = a.create_data_channel("neg", Some(dc_cfg())).map_err(|e| e.to_string())?;
@@ -405,12 +431,23 @@ async fn setup(phase: Phase, ev: Ev) -> Result<Setup, String> {
                 return Err("never reached ICE checking".into());
             }
         }
-        Phase::DtlsHandshaking | Phase::DtlsConnected | Phase::ChannelsOpen | Phase::MediaFlowing | Phase::RtpFlowing | Phase::JustConnected | Phase::JustConnectedMedia => {
+        Phase::DtlsHandshaking | Phase::DtlsConnected | Phase::ChannelsOpen | Phase::MediaFlowing | Phase::RtpFlowing | Phase::JustConnected | Phase::JustConnectedMedia | Phase::PeerChannelOpen | Phase::ThreeChannelsOpen => {
             let b = PeerConnection::new(cfg(mode.clone()));
             if with_dc {
                 let dcb = b.create_data_channel("neg", Some(dc_cfg())).map_err(|e| e.to_string())?;
                 let (cb, hb) = collect(dcb.clone());
                 s.dcb = Some(dcb); s.cb = Some(cb); s.hs.push(hb);
+            }
+            if phase == Phase::ThreeChannelsOpen {
+                for id in 1..3u16 {
+                    let c = DataChannelConfig { label: format!("neg{}", id), negotiated: Some(id), ordered: true, ..Default::default() };
+                    let da = a.create_data_channel(&c.label, Some(c.clone())).map_err(|e| e.to_string())?;
+                    let db = b.create_data_channel(&c.label, Some(c.clone())).map_err(|e| e.to_string())?;
+                    let (cx, hx) = collect(da.clone());
+                    s.hs.push(hx);
+                    s.extra.push((da, cx));
+                    s.extra_b.push(db);
+                }
             }
             if matches!(phase, Phase::DtlsConnected | Phase::JustConnectedMedia) {
                 a.add_transceiver(MediaKind::Audio, TransceiverDirection::SendRecv);
@@ -457,6 +494,35 @@ async fn setup(phase: Phase, ev: Ev) -> Result<Setup, String> {
                     s.b = Some(b); s.a = Some(a);
                     teardown_quiet(s).await;
                     return Err("pair did not reach the phase".into());
+                }
+                if phase == Phase::ThreeChannelsOpen {
+                    let ex: Vec<Arc<ChanCount>> = s.extra.iter().map(|(_, c)| c.clone()).collect();
+                    let _ = wait_until(|| ex.iter().all(|c| c.open.load(Ordering::SeqCst) > 0), Duration::from_secs(3)).await;
+                }
+                if phase == Phase::PeerChannelOpen {
+                    // the PEER opens a channel in-band; A's DataChannel listener announces it through pc.recv()
+                    let dcb2 = b.create_data_channel("inband", None).map_err(|e| e.to_string())?;
+                    let mut got = None;
+                    let deadline = Instant::now() + Duration::from_secs(4);
+                    while Instant::now() < deadline {
+                        match tokio::time::timeout(Duration::from_millis(500), a.recv()).await {
+                            Ok(Some(rustrtc::PeerConnectionEvent::DataChannel(dc))) => { got = Some(dc); break; }
+                            Ok(Some(_)) => continue,
+                            Ok(None) => break,
+                            Err(_) => continue,
+                        }
+                    }
+                    let Some(dc) = got else {
+                        s.b = Some(b); s.a = Some(a);
+                        teardown_quiet(s).await;
+                        return Err("the peer's in-band channel was never announced to A".into());
+                    };
+                    let (cx, hx) = collect(dc.clone());
+                    s.hs.push(hx);
+                    let cx2 = cx.clone();
+                    let _ = wait_until(|| cx2.open.load(Ordering::SeqCst) > 0, Duration::from_secs(1)).await;
+                    s.extra.push((dc, cx));
+                    s.extra_b.push(dcb2);
                 }
                 if phase == Phase::MediaFlowing {
                     let _ = a.send_data(0, b"hello").await;
@@ -518,6 +584,7 @@ async fn run_scenario(sc: Scenario) -> Outcome {
     } else { None };
     // a sender parked on a full window
     let mut sender_task = None;
+    let mut extra_senders: Vec<tokio::task::JoinHandle<(usize, String)>> = vec![];
     if ev.blocked() {
         if let Some(r) = &s.relay { r.mode.store(3, Ordering::SeqCst); }
         let pa = a.clone();
@@ -533,6 +600,22 @@ async fn run_scenario(sc: Scenario) -> Outcome {
         }));
         // parked = no progress for 150 ms
         let _ = wait_until(|| progress.lock().unwrap().elapsed() > Duration::from_millis(150), Duration::from_secs(3)).await;
+        if ev.blocked3() {
+            for ch in 1..3u16 {
+                let pa = a.clone();
+                let progress = Arc::new(Mutex::new(Instant::now()));
+                let p2 = progress.clone();
+                extra_senders.push(tokio::spawn(async move {
+                    let mut n = 0usize;
+                    loop {
+                        *p2.lock().unwrap() = Instant::now();
+                        match pa.send_data(ch, &[7u8; 1000]).await { Ok(()) => n += 1, Err(e) => return (n, e.to_string()) }
+                        if n > 100_000 { return (n, "never blocked".into()); }
+                    }
+                }));
+                let _ = wait_until(|| progress.lock().unwrap().elapsed() > Duration::from_millis(150), Duration::from_secs(3)).await;
+            }
+        }
     }
     tokio::time::sleep(Duration::from_millis(sc.jitter_ms)).await;
     out.before = Some(s.wa.obs());
@@ -558,7 +641,26 @@ async fn run_scenario(sc: Scenario) -> Outcome {
                 tokio::time::sleep(Duration::from_millis(150)).await;
                 inject_sctp(s.b.as_ref().unwrap(), 14).await;
             }
-            Ev::IceStop => a.ice_transport().stop(),
+            Ev::IceStop | Ev::Blocked3ThenIceStop => a.ice_transport().stop(),
+            Ev::Blocked3ThenAbort => { if !inject_sctp(s.b.as_ref().unwrap(), 6).await { out.notes.push("inject failed".into()); } }
+            Ev::Blocked3ThenCloseNotify => { if let Some(d) = s.b.as_ref().and_then(|b| b.verif_dtls_transport()) { d.close(); } }
+            Ev::LateChanIceStopClose | Ev::LateChanIceStopDrop | Ev::LateChanAbortClose | Ev::LateChanAbortDrop => {
+                if matches!(ev, Ev::LateChanIceStopClose | Ev::LateChanIceStopDrop) { a.ice_transport().stop(); } else { inject_sctp(s.b.as_ref().unwrap(), 6).await; }
+                // the association ends on its own: wait until the connection shows it
+                let w = &s.wa;
+                let _ = wait_until(|| w.obs().reason.is_some() && w.obs().peer != PeerConnectionState::Connected, Duration::from_secs(5)).await;
+                tokio::time::sleep(Duration::from_millis(150)).await;
+                out.notes.push(format!("association ended on its own: {:?}; primary channel {:?}", s.wa.obs(), cc(&s.ca)));
+                // ... and only now the application creates another channel (negotiated, or in-band on odd delays)
+                let late = if sc.jitter_ms % 2 == 1 { a.create_data_channel("late-inband", None) }
+                           else { a.create_data_channel("late", Some(DataChannelConfig { label: "late".into(), negotiated: Some(7), ordered: true, ..Default::default() })) };
+                match late {
+                    Ok(dc) => { let (cx, hx) = collect(dc.clone()); s.hs.push(hx); s.extra.push((dc, cx)); }
+                    Err(e) => out.notes.push(format!("create_data_channel after the end failed: {}", e)),
+                }
+                tokio::time::sleep(Duration::from_millis(50)).await;
+                if matches!(ev, Ev::LateChanIceStopClose | Ev::LateChanAbortClose) { a.close(); }
+            }
             Ev::IceStopThenClose => {
                 a.ice_transport().stop();
                 let w = &s.wa;
@@ -595,6 +697,7 @@ async fn run_scenario(sc: Scenario) -> Outcome {
         pending_recv.abort();
         if let Some(p) = &pending_wait { p.abort(); }
         if let Some(t) = &sender_task { t.abort(); }
+        for t in &extra_senders { t.abort(); }
         tokio::time::sleep(Duration::from_millis(20)).await;
         a_opt = None;
         if sc.phase == Phase::DtlsHandshaking && ev == Ev::Drop {
@@ -606,14 +709,17 @@ async fn run_scenario(sc: Scenario) -> Outcome {
     }
     // ------------------------------------------------------------------ settle: reported values stable
     let mut last = s.wa.obs();
+    let cx = |s: &Setup| -> Vec<(usize, usize, usize)> { s.extra.iter().map(|(_, c)| (c.open.load(Ordering::SeqCst), c.close.load(Ordering::SeqCst), c.ended.load(Ordering::SeqCst))).collect() };
     let mut last_c = cc(&s.ca);
+    let mut last_x = cx(&s);
     let mut stable_since = Instant::now();
     let want_end = ev.app_closed() || ev.lower_end();
     loop {
         tokio::time::sleep(Duration::from_millis(10)).await;
         let now = s.wa.obs();
         let now_c = cc(&s.ca);
-        if now != last || now_c != last_c { last = now; last_c = now_c; stable_since = Instant::now(); }
+        let now_x = cx(&s);
+        if now != last || now_c != last_c || now_x != last_x { last = now; last_c = now_c; last_x = now_x; stable_since = Instant::now(); }
         let ended = last.reason.is_some() && matches!(last.peer, PeerConnectionState::Disconnected | PeerConnectionState::Failed | PeerConnectionState::Closed);
         let quiet = stable_since.elapsed() > Duration::from_millis(400);
         if want_end && !ended && ev != Ev::DropStarved {
@@ -635,16 +741,34 @@ async fn run_scenario(sc: Scenario) -> Outcome {
     }
     out.after = Some(last.clone());
     out.chan = cc(&s.ca);
+    out.extra = cx(&s);
     // the parked sender
     if let Some(t) = sender_task.take() {
         if ev.drops_a() { out.sender = 0; } else {
             let t0 = Instant::now();
-            match timed(t, CALL_BOUND).await.0 {
+            let ah = t.abort_handle();
+            let r = timed(t, CALL_BOUND).await.0;
+            ah.abort();
+            match r {
                 Some(Ok((_n, e))) => { out.sender = if e == "never blocked" { 2 } else { 1 }; out.sender_latency_ms = Some(ms(t0.elapsed())); }
                 Some(Err(_)) => { out.sender = 0; }
                 None => { out.sender = 3; }
             }
         }
+    }
+    {
+        // all further parked senders are observed at the same time; one that is still parked after the
+        // re-observation is aborted so that it does not keep the connection (and the release check) waiting
+        let aborts: Vec<tokio::task::AbortHandle> = extra_senders.iter().map(|t| t.abort_handle()).collect();
+        let obs = futures::future::join_all(extra_senders.drain(..).map(|t| timed(t, CALL_BOUND))).await;
+        for (r, _) in obs {
+            out.senders_extra.push(match r {
+                Some(Ok((_n, e))) => if e == "never blocked" { 2 } else { 1 },
+                Some(Err(_)) => 0,
+                None => 3,
+            });
+        }
+        for a in aborts { a.abort(); }
     }
     // ------------------------------------------------------------------ calls after the event
     if let Some(a) = a_opt.as_ref() {
@@ -692,6 +816,7 @@ async fn run_scenario(sc: Scenario) -> Outcome {
     tokio::time::sleep(Duration::from_millis(60)).await;
     out.final_obs = Some(s.wa.obs());
     out.chan_final = cc(&s.ca);
+    out.extra_final = cx(&s);
     for h in &s.hs { h.abort(); }
     drop(s);
     let mut rel = wait_until(|| tasks() == 0, RELEASE_BOUND).await;
@@ -767,6 +892,19 @@ fn judge(sc: &Scenario, o: &Outcome) -> (String, Option<String>, serde_json::Val
         if closes != 1 { fails.push(format!("after the final close() the channel has observed {} Close events (want exactly 1)", closes)); }
         if ended != 1 { fails.push("after the final close() the channel event stream has not ended".into()); }
     }
+    for (k, (opens, closes, ended)) in o.extra.iter().enumerate() {
+        if *closes > 1 { fails.push(format!("channel #{} observed {} Close events", k + 1, closes)); }
+        if *opens > 1 { fails.push(format!("channel #{} observed {} Open events", k + 1, opens)); }
+        if ev.ends_assoc() && *closes != 1 { fails.push(format!("channel #{} of an ended connection observed {} Close events (want exactly 1) after {:?}", k + 1, closes, ev)); }
+        if ev.app_closed() && *ended != 1 { fails.push(format!("event stream of channel #{} did not end after close()/drop", k + 1)); }
+    }
+    for (k, (_, closes, ended)) in o.extra_final.iter().enumerate() {
+        if *closes != 1 { fails.push(format!("after the final close() channel #{} has observed {} Close events (want exactly 1)", k + 1, closes)); }
+        if *ended != 1 { fails.push(format!("after the final close() the event stream of channel #{} has not ended", k + 1)); }
+    }
+    for (k, f) in o.senders_extra.iter().enumerate() {
+        if *f != 1 { fails.push(format!("sender parked on channel {} {} after the association was ended from below ({:?})", k + 1, match f { 3 => "is still parked", 2 => "never blocked (scenario invalid)", _ => "vanished" }, ev)); }
+    }
     // O4: calls return
     let mut slow: Vec<String> = vec![];
     for (name, res, t) in &o.calls {
@@ -785,7 +923,9 @@ fn judge(sc: &Scenario, o: &Outcome) -> (String, Option<String>, serde_json::Val
     }
     if !o.ports_still_bound.is_empty() { fails.push(format!("UDP ports {:?} still bound after the final close + drop", o.ports_still_bound)); }
     // ------------------------------------------------------------------ model term
-    let chans = match o.chan { Some((op, cl, en)) => format!("[({}, {}, {})]", op, cl, if en == 1 { "true" } else { "false" }), None => "[]".into() };
+    let mut all: Vec<(usize, usize, usize)> = o.chan.iter().copied().collect();
+    all.extend(o.extra.iter().copied());
+    let chans = format!("[{}]", all.iter().map(|(op, cl, en)| format!("({}, {}, {})", op, cl, if *en == 1 { "true" } else { "false" })).collect::<Vec<_>>().join("; "));
     let term = if sc.phase.model() == "-" { "-".to_string() } else { format!("mkCase {} {} {} {} {} {} {} {}", sc.phase.model(), ev.threads(sc.phase, o.dtls_saw_close_notify), peer_term(after.peer), ice_term(after.ice), sig_term(after.sig),
         reason_term(&after.reason), chans, o.sender) };
     let desc = json!({
@@ -793,11 +933,12 @@ fn judge(sc: &Scenario, o: &Outcome) -> (String, Option<String>, serde_json::Val
         "model": {"phase": sc.phase.model(), "threads": ev.threads(sc.phase, o.dtls_saw_close_notify)}, "peer_close_notify_reached_dtls": o.dtls_saw_close_notify,
         "before": format!("{:?}", o.before), "after_event": format!("{:?}", after), "after_final_close": format!("{:?}", fin),
         "channel(open,close,ended)": format!("{:?}", o.chan), "channel_final": format!("{:?}", o.chan_final),
+        "further_channels": format!("{:?}", o.extra), "further_channels_final": format!("{:?}", o.extra_final), "further_parked_senders": format!("{:?}", o.senders_extra),
         "parked_sender": match o.sender { 0 => "none", 1 => "returned Err", 2 => "returned Ok", _ => "still parked" },
         "sender_release_ms": o.sender_latency_ms,
         "calls": o.calls.iter().map(|(n, r, t)| json!({"call": n, "result": r, "ms": t})).collect::<Vec<_>>(),
         "settle_ms": o.settle_ms, "tasks_before_event": o.tasks_before_event, "tasks_after_release": o.tasks_after_release,
-        "release_ms": o.release_ms, "reobserved": o.reobserved || !slow.is_empty(), "slow_observations": slow, "setup_attempts": o.setup_attempts, "udp_ports": o.ports, "udp_ports_still_bound": o.ports_still_bound, "notes": o.notes,
+        "release_ms": o.release_ms, "failed_in_parallel_pass_not_rerun": o.unconfirmed, "reobserved": o.reobserved || !slow.is_empty(), "slow_observations": slow, "setup_attempts": o.setup_attempts, "udp_ports": o.ports, "udp_ports_still_bound": o.ports_still_bound, "notes": o.notes,
     });
     let fail = if fails.is_empty() { None } else { Some(fails.join("; ")) };
     (term, fail, desc, true)
@@ -881,8 +1022,11 @@ fn scenarios(tier: &str, seed: u64) -> Vec<Scenario> {
         (DtlsHandshaking, vec![Close, Drop, CloseTwice, IceStop, RaceCloseClose]),
         (DtlsConnected, vec![Close, Drop, CloseNotify, IceStop, PeerClose, RaceCloseNotify]),
         (ChannelsOpen, vec![Close, Drop, CloseTwice, CloseThenDrop, CloseNotify, Abort, ShutdownAck, ShutdownThenComplete, ShutdownAlone, IceStop,
-                            IceStopThenClose, PeerClose, PeerDrop, RaceCloseNotify, RaceCloseAbort, RaceCloseClose, BlockedThenClose, BlockedThenAbort, BlockedThenCloseNotify]),
+                            IceStopThenClose, PeerClose, PeerDrop, RaceCloseNotify, RaceCloseAbort, RaceCloseClose, BlockedThenClose, BlockedThenAbort, BlockedThenCloseNotify,
+                            LateChanIceStopClose, LateChanIceStopDrop, LateChanAbortClose, LateChanAbortDrop]),
         (MediaFlowing, vec![Close, Drop, CloseNotify, Abort, RaceCloseNotify]),
+        (PeerChannelOpen, vec![Close, Drop, CloseThenDrop, CloseNotify, Abort, IceStop, IceStopThenClose, PeerDrop, RaceCloseNotify]),
+        (ThreeChannelsOpen, vec![Blocked3ThenIceStop, Blocked3ThenCloseNotify, Blocked3ThenAbort, Close, Drop]),
         (JustConnected, vec![Close, Drop, CloseThenDrop, PeerClose]),
         (JustConnectedMedia, vec![Close, Drop, PeerClose]),
         (RtpCreated, vec![Close, Drop]),
@@ -970,10 +1114,14 @@ fn main() {
     // nothing else going on in the harness; only a failure that shows again becomes an oracle_fail. Every such
     // retry is reported in the evidence (`retried_cases`, with what the first attempt said).
     let mut retried: Vec<serde_json::Value> = vec![];
+    // a mass failure (a real defect hits many rows) is not re-run row by row: the first few confirm or refute it
+    let max_reruns = 5usize;
+    let mut not_rerun = 0usize;
     for (i, o) in res.iter_mut() {
         let sc = &scs[*i];
         let (_, fail, _, ok) = judge(sc, o);
         if ok && fail.is_none() { continue; }
+        if retried.len() >= max_reruns { not_rerun += 1; o.unconfirmed = true; continue; }
         if !ok && !o.panicked { /* could not be set up under load: try once more alone */ }
         let first = fail.clone().or_else(|| o.setup_failed.clone()).unwrap_or_default();
         let mut o2 = run_one(sc);
@@ -1029,6 +1177,7 @@ fn main() {
         if let Some(l) = o.sender_latency_ms { max_sender_ms = max_sender_ms.max(l); }
         *per_phase.entry(format!("{:?}", sc.phase)).or_default() += 1;
         *per_event.entry(format!("{:?}", sc.ev)).or_default() += 1;
+        let fail = if o.unconfirmed { None } else { fail };
         out.push(vh::Case { term, key: format!("{:?} {:?} {} {:?}", sc.phase, sc.ev, sc.jitter_ms, sc.yields), desc, oracle_fail: fail, known: None, nontrivial: true, kind: sc.kind.into() });
     }
     // more than a few scenarios that cannot be set up means the harness is not measuring anything
@@ -1041,7 +1190,7 @@ fn main() {
             oracle_fail: Some(format!("{} of {} scenarios could not be brought to their phase", setup_failed, n)), known: None, nontrivial: false, kind: "harness".into() });
     }
     out.finish(json!({"generator": {
-        "tier": args.tier, "seed": args.seed, "scenarios": n, "retried_cases": retried.len(), "retries": retried, "reobserved_cases": reobserved, "setup_failed": setup_failed, "sctp_level_setup_failed": uut_setup_failed, "panics": panics,
+        "tier": args.tier, "seed": args.seed, "scenarios": n, "retried_cases": retried.len(), "retries": retried, "failed_but_not_rerun": not_rerun, "reobserved_cases": reobserved, "setup_failed": setup_failed, "sctp_level_setup_failed": uut_setup_failed, "panics": panics,
         "phases": per_phase, "events": per_event,
         "bounds_ms": {"call": ms(CALL_BOUND), "settle": ms(SETTLE_MAX), "release": ms(RELEASE_BOUND)},
         "observed_max_ms": {"api_call_after_event": max_call_ms, "release_after_final_close_and_drop": max_release_ms, "parked_sender_release": max_sender_ms},
